@@ -11,9 +11,23 @@
 #include <signal.h>
 
 static en::Fails fails;
-static unsigned long g_evals = 0, g_loaded = 0, g_deep = 0, g_shaped = 0;
+static unsigned long g_evals = 0, g_loaded = 0, g_deep = 0, g_shaped = 0, g_fired = 0;
 static std::map<std::string, unsigned long> g_rejects;
 static bool g_shape = false;
+static std::vector<std::vector<uint32_t>> g_texts;      // shape=<hex,hex,...;hex,...>: probe texts (UTF-32); default: one fixed text
+static void parse_shape_arg(const char *a) {
+    g_shape = true;
+    const char *p = strchr(a, '=');
+    if (!p) return;
+    std::vector<uint32_t> cur;
+    for (++p; ; ) {
+        char *e; unsigned long v = strtoul(p, &e, 16);
+        if (e != p) cur.push_back(uint32_t(v));
+        if (*e == ';' || *e == 0) { if (!cur.empty()) g_texts.push_back(cur); cur.clear(); }
+        if (*e == 0) break;
+        p = e + 1;
+    }
+}
 
 static void on_alarm(int) {
     fprintf(stderr, "\nHANG (no return within 30 s)\nCURRENT-CASE %s\n", en::render());
@@ -57,15 +71,21 @@ static void run_one(const std::vector<uint8_t> &font, unsigned opts, int src) {
     std::string rep = face_report(fb.face, ro);
     if (rep.find("CLONE_DIFFERS") != std::string::npos) fails.add("C18:clone-differs-from-source");
     if (g_shape) {
-        ShapeParams sp; sp.enc = 4; sp.dir = int(g_evals & 1); sp.want_dump = false; sp.query_all = true;
         static const uint32_t txt[] = {0x61, 0x62, 0x63, 0x20, 0x1000, 0x1031, 0x61, 0x62};
-        sp.text.assign(reinterpret_cast<const uint8_t *>(txt), reinterpret_cast<const uint8_t *>(txt) + sizeof txt);
-        ShapeResult r;
-        run_shape(fb.face, sp, r);
-        ++g_shaped;
-        for (auto &f : r.findings) {
-            if (f.label == "char-not-covered-by-any-slot" && r.late_assoc) continue;
-            fails.add((std::string(f.prop) + ":" + f.label).c_str());
+        if (g_texts.empty()) g_texts.push_back(std::vector<uint32_t>(txt, txt + 8));
+        for (size_t ti = 0; ti < g_texts.size(); ++ti) {
+            ShapeParams sp; sp.enc = 4; sp.dir = int((g_evals + ti) & 1); sp.want_dump = false; sp.query_all = true;
+            if (((g_evals >> 1) + ti) % 5 == 0) sp.ppm = ((g_evals >> 3) & 1) ? -13.f : 14.f;
+            sp.text.assign(reinterpret_cast<const uint8_t *>(g_texts[ti].data()), reinterpret_cast<const uint8_t *>(g_texts[ti].data()) + g_texts[ti].size() * 4);
+            ShapeResult r;
+            alarm(30);
+            run_shape(fb.face, sp, r);
+            ++g_shaped;
+            if (r.fired) ++g_fired;
+            for (auto &f : r.findings) {
+                if (f.label == "char-not-covered-by-any-slot" && r.late_assoc) continue;
+                fails.add((std::string(f.prop) + ":" + f.label).c_str());
+            }
         }
     }
     fb.destroy();
@@ -101,7 +121,7 @@ int main(int argc, char **argv) {
     if (mode == "one") {
         size_t off = strtoul(argv[3], nullptr, 0); unsigned val = unsigned(strtoul(argv[4], nullptr, 0)), width = unsigned(atoi(argv[5]));
         unsigned opts = unsigned(atoi(argv[6])); int src = atoi(argv[7]);
-        g_shape = argc > 8;
+        if (argc > 8) parse_shape_arg(argv[8]);
         if (width == 1 && off < font.size()) font[off] = uint8_t(val);
         else if (width == 2 && off + 1 < font.size()) { font[off] = uint8_t(val >> 8); font[off + 1] = uint8_t(val); }
         else if (width == 0 && off + 16 <= font.size()) { font[off + 12] = uint8_t(val >> 24); font[off + 13] = uint8_t(val >> 16); font[off + 14] = uint8_t(val >> 8); font[off + 15] = uint8_t(val); }
@@ -109,7 +129,7 @@ int main(int argc, char **argv) {
         run_one(font, opts, src);
     } else if (mode == "sweep") {
         unsigned long part = strtoul(argv[3], nullptr, 10), nparts = strtoul(argv[4], nullptr, 10);
-        g_shape = argc > 5;
+        if (argc > 5) parse_shape_arg(argv[5]);
         // directory entries (lengths and offsets) + every byte of the interesting tables
         std::vector<size_t> offs;
         unsigned nt = font.size() >= 12 ? (font[4] << 8 | font[5]) : 0;
@@ -168,6 +188,6 @@ int main(int argc, char **argv) {
     bool first = true;
     for (auto &kv : g_rejects) { if (!first) rj += ","; first = false; rj += "\"" + kv.first + "\":" + std::to_string(kv.second); }
     rj += "}";
-    printf("{\"evaluations\":%lu,\"loaded\":%lu,\"deep_rejects\":%lu,\"shaped\":%lu,\"rejects\":%s,\"fails\":%s}\n", g_evals, g_loaded, g_deep, g_shaped, rj.c_str(), fails.json().c_str());
+    printf("{\"evaluations\":%lu,\"loaded\":%lu,\"deep_rejects\":%lu,\"shaped\":%lu,\"shaped_fired\":%lu,\"rejects\":%s,\"fails\":%s}\n", g_evals, g_loaded, g_deep, g_shaped, g_fired, rj.c_str(), fails.json().c_str());
     return 0;
 }
